@@ -260,6 +260,11 @@ def run_case(cid, rng, workdir):
             bump(res, "systems_with_per_atom_masses")
         if rng.random() < 0.2 and T.alias_residues(rng, sysd):
             bump(res, "systems_with_two_residues_under_one_name")
+        if rng.random() < 0.25:
+            t_ = rng.choice(sorted(sysd["atypes"]))
+            sysd["atypes_defined_before"] = [(t_, round(sysd["atypes"][t_]["mass"] * rng.choice([0.5, 2.0, 3.0]), 1),
+                                              sysd["atypes"][t_]["sigma"])]
+            bump(res, "atom_types_defined_twice")
     text = T.render_top(sysd)
     with open(os.path.join(workdir, "s.top"), "w") as fh:
         fh.write(text)
